@@ -20,7 +20,7 @@ from units import c04_lex as L
 
 NAME = "c04_encode"
 ENGINE = "verus"
-PROPS = ("C04", "C09", "C11")
+PROPS = ("C04", "C09", "C11", "C16")
 ASTELEM = "src/miniscript/astelem.rs"
 UTIL = "src/util.rs"
 MSMOD = "src/miniscript/mod.rs"
@@ -315,6 +315,11 @@ impl<Pk: ToPublicKey, const MAX: usize> Threshold<Pk, MAX> {
     #[verifier::external_body]
     fn into_sorted_bip67_xonly(self) -> (r: Self)
         ensures r.spec_k() == self.spec_k(), r.elems() == bip67_sorted_xonly(self.elems()), r.elems().len() == self.elems().len() { unimplemented!() }
+    // a key list that is already in (full-key / x-only) BIP67 order is its own sorted form; nothing is said about the other order
+    #[verifier::external_body]
+    fn is_sorted_bip67(&self) -> (r: bool) ensures r ==> bip67_sorted(self.elems()) == self.elems() { unimplemented!() }
+    #[verifier::external_body]
+    fn is_sorted_bip67_xonly(&self) -> (r: bool) ensures r ==> bip67_sorted_xonly(self.elems()) == self.elems() { unimplemented!() }
 }
 """
 
@@ -374,9 +379,9 @@ def encode_clauses():
         ens[v] = Clause(v, ("C04",), "*self matches %s ==> r@ == builder@ + %s" % (pat, template_seq(v)))
     ens["Thresh"] = Clause("Thresh", ("C04",), "*self matches Terminal::Thresh(t) ==> r@ == builder@ + thresh_template(t.spec_k() as int, t.elems())")
     ens["Multi"] = Clause("Multi", ("C04",), "*self matches Terminal::Multi(t) ==> r@ == builder@ + multi_template(t.spec_k() as int, t.elems())")
-    ens["SortedMulti"] = Clause("SortedMulti", ("C04",), "*self matches Terminal::SortedMulti(t) ==> r@ == builder@ + multi_template(t.spec_k() as int, bip67_sorted(t.elems()))")
+    ens["SortedMulti"] = Clause("SortedMulti", ("C04", "C16"), "*self matches Terminal::SortedMulti(t) ==> r@ == builder@ + multi_template(t.spec_k() as int, bip67_sorted(t.elems()))")
     ens["MultiA"] = Clause("MultiA", ("C04",), "*self matches Terminal::MultiA(t) ==> r@ == builder@ + multi_a_template::<Pk, Ctx>(t.spec_k() as int, t.elems())")
-    ens["SortedMultiA"] = Clause("SortedMultiA", ("C04",), "*self matches Terminal::SortedMultiA(t) ==> r@ == builder@ + multi_a_template::<Pk, Ctx>(t.spec_k() as int, bip67_sorted_xonly(t.elems()))")
+    ens["SortedMultiA"] = Clause("SortedMultiA", ("C04", "C16"), "*self matches Terminal::SortedMultiA(t) ==> r@ == builder@ + multi_a_template::<Pk, Ctx>(t.spec_k() as int, bip67_sorted_xonly(t.elems()))")
     return ens
 
 
@@ -441,7 +446,7 @@ def build(repo):
     vf.trust("i64_from_u32 (external_body)", "std `From<u32> for i64` / `Into<i64> for u32`: lossless widening (this vstd has no spec for it)")
     vf.trust("ToPublicKey stub, From<AbsLockTime> for absolute::LockTime", "trait reduced to the methods encode calls, each with a spec twin; the conversion returns the wrapped lock time")
     vf.raw(NARY_SPEC)
-    vf.trust("Threshold::{clone, into_sorted_bip67, into_sorted_bip67_xonly} stubs", "structural clone / BIP67 sort as an uninterpreted permutation keeping k and n")
+    vf.trust("Threshold::{clone, into_sorted_bip67, into_sorted_bip67_xonly, is_sorted_bip67, is_sorted_bip67_xonly} stubs", "structural clone / BIP67 sort as an uninterpreted permutation keeping k and n; is_sorted_* == true only if the list is its own sorted form in THAT order")
     with vf.block("impl<T, const MAX: usize> Threshold<T, MAX>"):
         vf.fn(_tree.THRESH, "impl:Threshold<T, MAX>/fn:iter", qual="Threshold", props=("C11",),
               contract=Contract(ensures=[Clause("iter", (), "yields(r.remaining(), self.elems(), 0) && r.decrease() is Some")]))
@@ -458,7 +463,7 @@ def build(repo):
 
     # ---- Terminal::encode -------------------------------------------------------------------------
     with vf.block("impl<Pk: MiniscriptKey, Ctx: ScriptContext> Terminal<Pk, Ctx>"):
-        vf.fn(ASTELEM, "impl:Terminal<Pk, Ctx>/fn:encode", qual="Terminal", props=("C04", "C11"), contract=encode_contract(), cases=encode_cases(), rewrites=[
+        vf.fn(ASTELEM, "impl:Terminal<Pk, Ctx>/fn:encode", qual="Terminal", props=("C04", "C11", "C16"), contract=encode_contract(), cases=encode_cases(), rewrites=[
             lit("R7", "absolute::LockTime::from(t)", "absolute_locktime_from(t)", required=False),
             lit("R7", "relative::LockTime::from(t)", "relative_locktime_from(t)", required=False),
             sub("R7", r"\.push_int\(([^;\n]*?)\.into\(\)\)", r".push_int(i64_from_u32(\1))", required=False),
